@@ -51,6 +51,11 @@ def plans(draw, max_calls=12):
                'cut': draw(st.sampled_from([1, 4, 10, 18, 30])), 'for_ms': draw(st.sampled_from([5, 15, 25, 45, 60, T + 10, 2 * T]))}
     servers[str(p)] = {'connect': [], 'requests': reqs, 'timeline': tl, 'stall': stall,
                        'chunks': draw(st.one_of(st.none(), st.lists(st.integers(1, 9), min_size=1, max_size=4)))}
+  wait_open = draw(st.sampled_from([True, True, False]))
+  if not wait_open:
+    slow = draw(st.sampled_from([3, 8, 15]))
+    for p in ports:
+      servers[str(p)]['connect'] = [['accept', slow]]
   ncalls = draw(st.integers(2, max_calls))
   methods = ['hi'] if iface == 'hello' else ['echo', 'echo', 'risky', 'put', 'names']
   calls = []
@@ -74,7 +79,9 @@ def plans(draw, max_calls=12):
   return {
       'seed': draw(st.integers(0, 2 ** 16)), 'stack': stack, 'iface': iface,
       'client_id': draw(st.sampled_from([None, 'cli'])) if stack == 'thriftmux' else None,
-      'balancer': draw(st.sampled_from(['default', 'heap'])), 'pool': pool, 'timeout_ms': T, 'wait_open': True,
+      'balancer': draw(st.sampled_from(['default', 'heap'])), 'pool': pool, 'timeout_ms': T,
+      # a third of the plans issue their first calls while the client is still opening (the first connects take a few ms)
+      'wait_open': wait_open,
       'serverset': {'kind': 'uri', 'initial': ports, 'events': []},
       'servers': servers, 'calls': calls, 'run_ms': 3 * T + 400, 'close_at': None,
       'reply_contexts': draw(st.booleans()), 'gate': gate,
